@@ -51,11 +51,14 @@ TInitMem == IsEvent("InitMem") /\ LET e == Log[l]  c == CfgOf(e.r) IN
   /\ Chk("C15:read-only-flag", ~e.r.ro /\ e.r.wrapped)
   /\ Chk("C15:memory-bits", e.membits = <<>>)
   /\ pristine' = pristine \ {e.m} /\ UNCHANGED img
+\* plain update() is specified also through a STALE view ("stale":true): the region gains the item; nothing is claimed
+\* about the stale view's own answers (its is_empty is not checked), every view created later is checked as usual
 TUpdate == IsEvent("Update") /\ LET e == Log[l] IN
-  /\ Operand(e.f) /\ ItemOK(e)
+  /\ Chk("harness:live-view", e.f \in Live /\ Has(e, "stale") = ~flt[e.f].fresh)
+  /\ ItemOK(e)
   /\ Chk("C15:read-only-refused", (e.out = "throw") = Refused(e.f))
   /\ Update(e.f, X(e), e.out)
-  /\ PostEmpty(e) /\ Touched(e.f, e.out) /\ UNCHANGED img
+  /\ (flt[e.f].fresh => PostEmpty(e)) /\ Touched(e.f, e.out) /\ UNCHANGED img
 TQueryUpdate == IsEvent("QueryUpdate") /\ LET e == Log[l] IN
   /\ Operand(e.f) /\ ItemOK(e)
   /\ Chk("C15:read-only-refused", (e.out = "throw") = Refused(e.f))
